@@ -140,6 +140,119 @@ impl Universe for EmbeddedStructured {
     }
 }
 
+/// Headers whose payload is within `span` bytes of the 65535-byte maximum, with *well-formed* TLV sections of
+/// several shapes sized to the byte: the last items start in the final bytes of the largest possible header, which
+/// is where a size limit that forgets the 16 fixed bytes, a 16-bit cursor or a clamped length first goes wrong.
+pub struct NearMaxStructured {
+    pub span: usize,
+}
+
+pub const NEAR_MAX_LAYOUTS: usize = 6;
+
+fn push_tlv(out: &mut Vec<u8>, kind: u8, n: usize) {
+    out.push(kind);
+    out.push((n >> 8) as u8);
+    out.push(n as u8);
+    let base = out.len();
+    out.extend((0..n).map(|i| u2::pattern(base + i)));
+}
+
+/// a well-formed section of exactly `s` bytes (s >= 64) in one of NEAR_MAX_LAYOUTS shapes
+pub fn near_max_section(s: usize, layout: usize, out: &mut Vec<u8>) {
+    out.clear();
+    match layout {
+        0 => push_tlv(out, 0xe0, s - 3),
+        1 => {
+            push_tlv(out, 0xe1, s - 3 - 3 * 4);
+            for k in 0..3 {
+                push_tlv(out, 0x04 + k, 1);
+            }
+        }
+        2 => {
+            for k in 0..8 {
+                push_tlv(out, 0xe2 + k, 1);
+            }
+            push_tlv(out, 0x05, s - 8 * 4 - 3);
+        }
+        3 | 5 => {
+            // runs of equal mid-size items, one remainder item, then two empty ones at the very end
+            let item = if layout == 3 { 1024 } else { 255 };
+            let mut left = s - 6;
+            while left >= 2 * (item + 3) {
+                push_tlv(out, 0x30, item);
+                left -= item + 3;
+            }
+            push_tlv(out, 0x31, left - 3);
+            push_tlv(out, 0x04, 0);
+            push_tlv(out, 0x04, 0);
+        }
+        _ => {
+            // empty items only, the first one absorbing the remainder
+            push_tlv(out, 0x04, s % 3);
+            for _ in 1..s / 3 {
+                push_tlv(out, 0x04, 0);
+            }
+        }
+    }
+    debug_assert_eq!(out.len(), s);
+}
+
+impl Universe for NearMaxStructured {
+    fn name(&self) -> String {
+        "UT-structured/near-max".into()
+    }
+    fn bound(&self) -> Value {
+        json!({"mode": "headers of each family (and LOCAL/unspecified) with every payload length in 65535-span..=65535 whose TLV section is well-formed and sized to the byte, in 6 shapes (one item; big then 3 short; 8 short then big; 1 KiB run + remainder + 2 empty; empty items only; 255-byte run + remainder + 2 empty)", "span": self.span})
+    }
+    fn units(&self) -> usize {
+        5 * (self.span + 1)
+    }
+    fn roots(&self) -> u64 {
+        5
+    }
+    fn run_unit(&self, u: usize, f: &mut dyn FnMut(&[u8])) {
+        let family = (u / (self.span + 1)) as u8;
+        let total = 65535 - (u % (self.span + 1));
+        let size = FAMILY_SIZE[if family == 4 { 0 } else { family as usize }];
+        let mut section = Vec::with_capacity(65536);
+        let mut buf = Vec::with_capacity(65536 + 16);
+        for layout in 0..NEAR_MAX_LAYOUTS {
+            near_max_section(total - size, layout, &mut section);
+            if embed(family, &section, &mut buf) {
+                f(&buf);
+            }
+        }
+    }
+}
+
+/// The same shapes as bare sections, every size in lo..=hi (for the iterator alone and for C11's own embedding).
+pub struct NearMaxSections {
+    pub lo: usize,
+    pub hi: usize,
+}
+
+impl Universe for NearMaxSections {
+    fn name(&self) -> String {
+        "UT-structured/near-max-sections".into()
+    }
+    fn bound(&self) -> Value {
+        json!({"mode": "well-formed TLV sections of every size lo..=hi in the 6 near-max shapes", "lo": self.lo, "hi": self.hi})
+    }
+    fn units(&self) -> usize {
+        self.hi - self.lo + 1
+    }
+    fn roots(&self) -> u64 {
+        1
+    }
+    fn run_unit(&self, u: usize, f: &mut dyn FnMut(&[u8])) {
+        let mut section = Vec::with_capacity(65536);
+        for layout in 0..NEAR_MAX_LAYOUTS {
+            near_max_section(self.lo + u, layout, &mut section);
+            f(&section);
+        }
+    }
+}
+
 fn describe(items: &[Item]) -> String {
     let mut s = String::new();
     for i in items.iter().take(8) {
@@ -294,4 +407,5 @@ pub fn run(run: &Run) {
     run.explore(&u2::tlv_byte_universe(run.tier.pick(10, 12)));
     run.explore(&u2::tlv_text_universe(run.tier.pick(8, 10)));
     run.explore(&u2::tlv_structured_universe(run.tier == Tier::Thorough));
+    run.explore(&NearMaxSections { lo: 65535 - 216 - run.tier.pick(35, 135), hi: 65535 });
 }
